@@ -120,7 +120,23 @@ class IsoDepInitiator(object):
 
             while data[0] & 0b11111110 == 0b11110010:  # WTX
                 log.debug("ISO-DEP waiting time extension")
-                data = self.clf.exchange(data, (data[1] & 0x3F) * self.fwt)
+                if len(data) < 2:
+                    log.error("ISO-DEP protocol error: wtx without wtxm")
+                    raise Type4TagCommandError(nfc.tag.PROTOCOL_ERROR)
+                try:
+                    data = self.clf.exchange(
+                        data, (data[1] & 0x3F) * self.fwt)
+                    if len(data) == 0:
+                        raise nfc.clf.TransmissionError
+                except nfc.clf.TimeoutError:
+                    log.error("ISO-DEP timeout error after wtx")
+                    raise Type4TagCommandError(nfc.tag.TIMEOUT_ERROR)
+                except nfc.clf.TransmissionError:
+                    log.error("ISO-DEP transmission error after wtx")
+                    raise Type4TagCommandError(nfc.tag.RECEIVE_ERROR)
+                except nfc.clf.ProtocolError:
+                    log.error("ISO-DEP protocol error after wtx")
+                    raise Type4TagCommandError(nfc.tag.PROTOCOL_ERROR)
 
             if data[0] & 0x01 != self.pni:
                 log.warning("ISO-DEP protocol error: block number")
